@@ -105,6 +105,9 @@ def run(pid, tier, seed, replay=None):
     if pid == "C11":
         import p11
         return p11.run(tier, seed, replay)
+    if pid == "C17":
+        import p17
+        return p17.run(tier, seed, replay)
     if pid in PLAN:
         return run_generic(pid, tier, seed, replay)
     print("unknown property", pid)
